@@ -155,9 +155,12 @@ def run_task(task):
             res["nontrivial"] = 1
             old = [vs[0] for vs in m["versions"]]
             new = [vs[-1] for vs in m["versions"]]
-            if not any(o is not None and o[0] == "exc" for o in m["outcomes"]):
-                res["notes"].append("%s: unserialisable content did not make the operation fail" % scn["label"])
-            if old != new:
+            failed = any(o is not None and o[0] == "exc" for o in m["outcomes"])
+            if not failed:
+                # the injection did not reach the way this tree serialises: no verdict (a save that succeeds may of
+                # course change the file)
+                res["notes"].append("%s: the injected serialisation failure did not make the operation fail" % scn["label"])
+            if failed and old != new:
                 res["violations"].append(_viol(scn, ("crash-free",), "damaged-by-unserialisable",
                                                "file went from %r to %r although serialisation failed" % (old[0][:60], None if new[0] is None else new[0][:60])))
             strays = [x for p in paths for x in os.listdir(os.path.dirname(p)) if x.startswith("._") and x.endswith("_" + os.path.basename(p))]
